@@ -17,10 +17,14 @@
 (*             come first in the stack; each has isolated zero-weight pixels chosen among its   *)
 (*             two first and two last pixels, i.e. in the region only it covers; output grids   *)
 (*             span the union of both                                                           *)
+(*   "edge"    the lower edge of the stated domain: two exposures of NE real pixels with        *)
+(*             EXACTLY 101, 102, 103 (or all NE) good pixels each, in every combination; the    *)
+(*             good pixels contiguous at the start, contiguous in the middle, or separated by   *)
+(*             isolated zero-weight pixels; second exposure on the same grid or dithered 1/2    *)
 (* The pair variants also hold offsets of several pixels and a shorter second exposure that     *)
 (* covers only part of the first (spec level; a real 2-D stack has rows of equal length).       *)
 EXTENDS Resample, TLC
-CONSTANTS N, NI, B, NP, BP, PairStride, PairMinGood, NS, StackOffsets, StackGrids, Families
+CONSTANTS N, NI, B, NP, BP, PairStride, PairMinGood, NS, StackOffsets, StackGrids, NE, Families
 VARIABLES c, exp
 
 (* values for StackOffsets (a cfg file cannot hold negative numbers) *)
@@ -84,6 +88,17 @@ StackGood(n, bits) == [k \in 1 .. n |-> ~(\E s \in 1 .. 4 : Slots(n)[s] = k - 1 
 StackExps(a, b, off) ==
   IF (a + b) % 2 = 0 THEN << [good |-> StackGood(NS, a), sh |-> Zero], [good |-> StackGood(NS, b), sh |-> OfInt(off)] >>
   ELSE << [good |-> StackGood(NS, b), sh |-> OfInt(off)], [good |-> StackGood(NS, a), sh |-> Zero] >>
+(* exactly G good pixels out of NE: lay 1 = the first G, lay 2 = G in the middle, lay 3 = isolated holes *)
+EdgeCounts == << 101, 102, 103, NE >>
+Holes == << 8, 29, 47, 66, 90 >>
+EdgeGood(G, lay) ==
+  [k \in 1 .. NE |->
+     IF lay = 1 THEN k <= G
+     ELSE IF lay = 2 THEN k > (NE - G) \div 2 /\ k <= (NE - G) \div 2 + G
+     ELSE ~(\E h \in 1 .. (NE - G) : Holes[h] = k - 1)]
+EdgeExps(g1, l1, g2, l2, s) == << [good |-> EdgeGood(EdgeCounts[g1], l1), sh |-> Zero],
+                                 [good |-> EdgeGood(EdgeCounts[g2], l2), sh |-> IF s = 1 THEN Zero ELSE R(1, 2)] >>
+EdgeGrids == {2, 6}
 Lo(off) == IF off < 0 THEN off ELSE 0
 Span(off) == NS + Abs(off)
 StackGridsOf(off) == <<
@@ -108,6 +123,8 @@ RootStep ==
         /\ \E a \in 0 .. (2 ^ NP - 1) : c' = [kind |-> "seedQ", a |-> a]
      \/ /\ "stack" \in Families
         /\ \E a \in 0 .. 15 : \E off \in StackOffsets : c' = [kind |-> "seedT", a |-> a, off |-> off]
+     \/ /\ "edge" \in Families
+        /\ \E g1 \in 1 .. 4 : \E l1 \in 1 .. 3 : c' = [kind |-> "seedE", g1 |-> g1, l1 |-> l1]
   /\ exp' = NoExp
 
 (* good patterns, grid and expectation are bound by \E over singleton sets so that TLC          *)
@@ -155,8 +172,17 @@ StackStep ==
         /\ c' = [kind |-> "stack", pat |-> c.a, pat2 |-> b, g |-> g, off |-> c.off, grid |-> grid, exps |-> exps]
         /\ exp' = e
 
+EdgeStep ==
+  /\ c.kind = "seedE"
+  /\ \E g2 \in 1 .. 4 : \E l2 \in 1 .. 3 : \E s \in 1 .. 2 : \E g \in EdgeGrids :
+     \E exps \in {EdgeExps(c.g1, c.l1, g2, l2, s)} : \E grid \in {Grids(NE)[g]} : \E ps \in {Positions(grid)} :
+     \E st \in {StrictSetP(exps, ps)} : \E e \in {ExpOf(exps, grid, <<>>, ps, st)} :
+        /\ c' = [kind |-> "edge", pat |-> 10 * EdgeCounts[c.g1] + c.l1, pat2 |-> 10 * EdgeCounts[g2] + l2, g |-> g,
+                 ngood |-> << NGood(exps[1].good), NGood(exps[2].good) >>, grid |-> grid, exps |-> exps]
+        /\ exp' = e
+
 Init == c = Root /\ exp = NoExp
-Next == RootStep \/ SingleStep \/ InflStep \/ PairStep \/ PairInflStep \/ StackStep
+Next == RootStep \/ SingleStep \/ InflStep \/ PairStep \/ PairInflStep \/ StackStep \/ EdgeStep
 
 (* ---------- views of the current case ---------- *)
 IsSingle == c.kind = "single"
@@ -164,12 +190,14 @@ IsInfl == c.kind = "infl"
 IsPair == c.kind = "pair"
 IsPairInfl == c.kind = "pairinfl"
 IsStack == c.kind = "stack"
+IsEdge == c.kind = "edge"
 CGood == c.exps[1].good
 CGrid == c.grid
 CExps == c.exps
 
 (* ---------- properties of the specification itself ---------- *)
 ASSUME PairMinGood * BP >= 101
+ASSUME NE >= 104 /\ NE - 5 <= 101 /\ Holes[5] < NE /\ \A g \in EdgeGrids : GridOK(Grids(NE)[g])
 ASSUME NS - 4 >= 101 /\ \A off \in StackOffsets : off # 0 /\ \A g \in StackGrids : GridOK(StackGridsOf(off)[g])
 ASSUME /\ \A g \in 1 .. NGrids : GridOK(Grids(N)[g])
        /\ \A g \in InflGrids : GridOK(Grids(NI * B)[g])
@@ -189,11 +217,11 @@ C11_InteriorKept == (IsSingle \/ IsPair) => Law_InteriorKept(CGrid, exp.strict)
 C11_Monotone == IsSingle => Law_Monotone(CGood, CGrid, exp.mz)
 C11_InterpBound == IsSingle => (c.iv = IvOf(CGood) /\ Law_InterpBound(c.iv, CGrid, exp.mz))
 C11_MultiIntersection == IsPair => Law_MultiIntersection(CExps, CGrid, exp.mz)
-C11_MultiShrinks == (IsPair \/ IsStack) => Law_MultiShrinks(CExps, CGrid, exp.mz)
+C11_MultiShrinks == (IsPair \/ IsStack \/ IsEdge) => Law_MultiShrinks(CExps, CGrid, exp.mz)
 (* the dumped expectation is the specification's (guards against an inconsistent MC module) *)
 C11_ExpIsSpec == /\ IsSingle => (exp.mz = MZSet(One1(CGood), CGrid) /\ exp.strict = StrictSet(One1(CGood), CGrid))
                  /\ IsPair => exp.mz = MZSet(CExps, CGrid)
-                 /\ (IsSingle \/ IsInfl \/ IsPair \/ IsPairInfl \/ IsStack) => exp.mz \subseteq exp.strict
+                 /\ (IsSingle \/ IsInfl \/ IsPair \/ IsPairInfl \/ IsStack \/ IsEdge) => exp.mz \subseteq exp.strict
 (* in an inflated pattern no good pixel is isolated, so both readings coincide *)
 (* different coverage: an output pixel in the part only one exposure covers is judged by that   *)
 (* exposure alone, and every output pixel beyond the union must be zero                          *)
@@ -203,5 +231,8 @@ C11_StackCoverage ==
      /\ \A e \in DOMAIN CExps :
           (\A f \in DOMAIN CExps \ {e} : ~InRange(NS, Rel(p, CExps[f].sh)))
              => ((j \in exp.mz) = MustBeZero(CExps[e].good, Rel(p, CExps[e].sh)))
+(* the edge family sits exactly on the boundary of the stated domain *)
+C11_EdgeCounts == IsEdge => /\ c.ngood[1] = c.pat \div 10 /\ c.ngood[2] = c.pat2 \div 10
+                            /\ c.ngood[1] >= 101 /\ c.ngood[2] >= 101
 C11_InflNoIsolated == (IsInfl \/ IsPairInfl) => exp.mz = exp.strict
 =============================================================================
